@@ -107,6 +107,20 @@ def check_via_ctor(model, rep):
                     rep.inspect()
                     v = n.value
 
+                    def helper_ok(hm, v, depth):
+                        # the same judgement inside a helper method (its own locals)
+                        if isinstance(v, ast.Call) and isinstance(v.func, ast.Name) and v.func.id in kinds:
+                            return True
+                        if isinstance(v, ast.Call) and isinstance(v.func, ast.Attribute) and v.func.attr == '__class__':
+                            return True
+                        if isinstance(v, ast.Name) and depth < 4:
+                            binds = [a.value for a in walk_no_nested(hm.node) if isinstance(a, ast.Assign)
+                                     and any(isinstance(t, ast.Name) and t.id == v.id for t in a.targets)]
+                            return bool(binds) and all(helper_ok(hm, b, depth + 1) for b in binds)
+                        if isinstance(v, ast.IfExp):
+                            return helper_ok(hm, v.body, depth) and helper_ok(hm, v.orelse, depth)
+                        return isinstance(v, (ast.BinOp, ast.Compare, ast.Constant, ast.BoolOp, ast.UnaryOp))
+
                     def built_ok(v, depth=0):
                         if isinstance(v, ast.Call):
                             f = v.func
@@ -119,6 +133,13 @@ def check_via_ctor(model, rep):
                             if isinstance(f, ast.Attribute) and isinstance(f.value, ast.Call) and \
                                     isinstance(f.value.func, ast.Name) and f.value.func.id == 'super':
                                 return True
+                            if isinstance(f, ast.Attribute) and isinstance(f.value, ast.Name) and f.value.id in ('self', 'other') and depth < 3:
+                                # a helper method of the class: every return of the helper must itself be constructor-built
+                                hm = model.find_member(k, f.attr)
+                                if hm is not None and hm.kind not in ('property', 'setter'):
+                                    rets = [r.value for r in walk_no_nested(hm.node) if isinstance(r, ast.Return) and r.value is not None]
+                                    if rets and all(helper_ok(hm, r, depth + 1) for r in rets):
+                                        return True
                             if isinstance(f, ast.Name):
                                 # a local bound to a quantity class (possibly chosen by a conditional expression)
                                 def is_kind(e):
@@ -320,12 +341,28 @@ def check_minimum_teeth(model, rep, R='C19.params'):
         if isinstance(n, ast.Name) and n.id in consts and depth < 4 and n.id.isupper() and not isinstance(consts[n.id], ast.Constant):
             return expand(consts[n.id], depth + 1)
         return n
+    import copy
+
+    class Inline(ast.NodeTransformer):
+        # module-level names bound to (non-literal) expressions are replaced by their definitions: helper constants such as
+        # `_TEETH_NUMBER_COLUMN = DATA['Number of teeth']` or `_FIRST_ROW = DATA.index[0]`
+        def __init__(self):
+            self.depth = 0
+
+        def visit_Name(self, n):
+            d = consts.get(n.id)
+            if d is not None and n.id != 'MINIMUM_TEETH_NUMBER' and self.depth < 5 and isinstance(d, (ast.Subscript, ast.Attribute, ast.Name)):
+                self.depth += 1
+                r = self.visit(copy.deepcopy(d))
+                self.depth -= 1
+                return r
+            return n
     text = ast.unparse(node)
-    full = text
-    for x in ast.walk(node):
+    outer = Inline().visit(copy.deepcopy(node))
+    full = ast.unparse(outer)
+    for x in ast.walk(outer):
         if isinstance(x, ast.Name) and x.id in consts and x.id.isupper():
             full += ' ' + ast.unparse(expand(x))
-    outer = node
     verdict, why = None, ''
     if isinstance(outer, ast.Call) and isinstance(outer.func, ast.Attribute) and outer.func.attr in ('idxmin', 'idxmax', 'argmin', 'argmax'):
         verdict, why = False, f'`{text[:60]}` is the LABEL/position of the extreme row, not a teeth number (with the default index: 0)'
